@@ -134,6 +134,27 @@ func TestC15(t *testing.T) {
 		c.FP("ramp", h.Script, sig.String(), o.String())
 		c.Nontrivial(true)
 	})
+	// every dictionary column of every record type crossing its index width (or the limit) in one build:
+	// the record is discarded and rebuilt up to the retry budget, several times per batch
+	r.Layer("wide", e.Pick(9, 45), func(c *vc.Case) {
+		sig := canon.Signal(c.Idx % 3)
+		o := DefaultOpts()
+		o.Limit = []string{"default", "8", "16"}[(c.Idx/3)%3]
+		o.Reset = c04Resets[c.R.IntN(6)]
+		o.Zstd = c.R.IntN(2)
+		lazy := WideHistory(sig, 3, 300, 0)
+		if c.R.IntN(2) == 0 {
+			lazy = WideHistory(sig, 30, 100, 1)
+		}
+		h := &History{Script: lazy.Script}
+		for k := 0; k < lazy.Len(); k++ {
+			h.Batches = append(h.Batches, lazy.At(k))
+			lazy.Forget(k)
+		}
+		leakHistory(c, h, o, nil)
+		c.FP("wide", h.Script, sig.String(), o.String())
+		c.Nontrivial(true)
+	})
 	r.Layer("oversize", e.Pick(numOversizeKinds, 3*numOversizeKinds), func(c *vc.Case) {
 		big, name := oversize(c.Idx%numOversizeKinds, []int{65600, 65536, 131073}[(c.Idx/numOversizeKinds)%3])
 		g := gen.New(c.R, gen.DValid)
